@@ -151,6 +151,34 @@ def noScaleUpForTooBig (inp : Input) (ob : Obs) : Bool :=
 
 def ok (inp : Input) (ob : Obs) : Bool := fits inp ob && noTooBig inp ob && noScaleUpForTooBig inp ob
 
+/-- an *assigned* target that alone exceeds the process limit and that relief would look at -/
+def bigProc (o : Opt) (st : St) : Bool :=
+  st.state == .normal && st.health == .good && decide (3 ≤ st.times) && decide (st.total ≠ 0) && decide (st.total > o.maxProc)
+
+/-- … or the head-series limit -/
+def bigHead (o : Opt) (st : St) : Bool :=
+  st.state == .normal && st.health == .good && decide (3 ≤ st.times) && decide (st.series > o.maxHead)
+
+/-- shard `i` reports such a target, still discovered, that no other shard reports (so `gcTargets`
+    leaves it alone) -/
+def holdsBig (inp : Input) (i : Nat) (p : Probe) (big : St → Bool) : Bool :=
+  (reported p).any fun (h, st) => big st && inp.active.contains h &&
+    !(inp.probes.zipIdx.any fun (q, j) => j != i && (reported q).has h)
+
+/-- every shard that could trigger relief does so only because of a target that alone exceeds the limit -/
+def overloadOnlyByBig (inp : Input) : Bool :=
+  inp.probes.zipIdx.all fun (p, i) =>
+    (decide ((effRt p).proc < inp.opt.maxProc) || holdsBig inp i p (bigProc inp.opt)) &&
+    (inp.opt.maxHead == 0 || decide ((effRt p).head < inp.opt.maxHead) || holdsBig inp i p (bigHead inp.opt))
+
+/-- "… and never causes a scale-up", for assigned targets: all shards in sync, every unscraped target
+    unplaceable, every shard at or above a limit holds a target that alone exceeds that limit ⇒ no
+    request for more shards than there are (or than the configured minimum).  Monitored on every
+    outcome; relies on series-with-rate not rounding a limit down. -/
+def noScaleUpForAssignedTooBig (inp : Input) (ob : Obs) : Bool :=
+  !(inp.probes.all inSync && onlyTooBigUnscraped inp && overloadOnlyByBig inp) ||
+  ob.scales.all fun k => k ≤ inp.probes.length || k ≤ inp.opt.minShard
+
 /-- no reported or estimated size is negative (hypothesis of the C04 theorem; the driver counts
     the inputs that do not meet it) -/
 def sizesOK (inp : Input) : Bool :=
@@ -160,6 +188,11 @@ def sizesOK (inp : Input) : Bool :=
 def clause (inp : Input) (ob : Obs) : String :=
   if !fits inp ob then "fits" else if !noTooBig inp ob then "noTooBig" else
   if !noScaleUpForTooBig inp ob then "noScaleUpForTooBig" else ""
+
+def okAll (inp : Input) (ob : Obs) : Bool := ok inp ob && noScaleUpForAssignedTooBig inp ob
+
+def clauseAll (inp : Input) (ob : Obs) : String :=
+  if !ok inp ob then clause inp ob else if !noScaleUpForAssignedTooBig inp ob then "noScaleUpForAssignedTooBig" else ""
 
 end C04
 
